@@ -13,7 +13,10 @@
 (*                                    of parsing is a function of s alone.  *)
 (*  print    u, s, backok, back, tback, jback   u.String(), ParseUUID back; *)
 (*                                    MarshalText/UnmarshalText and JSON    *)
-(*                                    round trips into used destinations    *)
+(*                                    round trips into used destinations;   *)
+(*                                    s2, mt2, js2, tback2, jback2: the     *)
+(*                                    printed texts still HELD, read again  *)
+(*                                    after other UUIDs were printed        *)
 (*  v1       t, clock, node, u, str, ver, varietf, ts, tsec, tns, clk, nd  *)
 (*                                    TimeUUIDWith(t, clock, node) + getters*)
 (*  fromtime sec, ns, u, ver, varietf, ts, tsec, tns    UUIDFromTime(time) *)
@@ -35,6 +38,8 @@ First(clauses) ==      \* clauses: sequence of <<name, BOOLEAN>>; the first fals
   IF bad = <<>> THEN V(TRUE, "") ELSE V(FALSE, bad[1][1])
 
 LeS(a, b) == ~LtS(b, a)
+\* the text t is one that parsing must not refuse and that denotes u
+TextIs(t, u) == ParseClass(t) # "reject" /\ ParseValue(t) = u
 
 Verdict(r) ==
   IF r.panic # "" THEN V(FALSE, "panic") ELSE
@@ -49,7 +54,12 @@ Verdict(r) ==
                            <<"print-parse-rejected", r.backok>>,
                            <<"print-parse-roundtrip", r.back = r.u>>,
                            <<"marshaltext-unmarshaltext-roundtrip", r.tbackok /\ r.tback = r.u>>,
-                           <<"marshaljson-unmarshaljson-roundtrip", r.jbackok /\ r.jback = r.u>> >>)
+                           <<"marshaljson-unmarshaljson-roundtrip", r.jbackok /\ r.jback = r.u>>,
+                           <<"marshaltext-other-value", TextIs(r.mt, r.u)>>,
+                           \* the caller still holds what was printed while other UUIDs are printed
+                           <<"string-changed-while-held", r.s2 = r.s>>,
+                           <<"marshaltext-changed-while-held", TextIs(r.mt2, r.u) /\ r.tback2ok /\ r.tback2 = r.u>>,
+                           <<"marshaljson-changed-while-held", r.js2 = r.js /\ r.jback2ok /\ r.jback2 = r.u>> >>)
          IN IF v.ok /\ r.s # Canon(r.u) THEN [v EXCEPT !.drift = "String() is not the canonical lower-case 8-4-4-4-12 form"] ELSE v
     [] r.k = "v1" ->
          LET tw == WordBE(r.t)
